@@ -14,6 +14,7 @@ mod c23;
 mod c24;
 mod c35;
 mod c36;
+mod c27;
 mod gens;
 mod lang;
 mod vrlrun;
@@ -47,6 +48,7 @@ const EXECS: &[Exec] = &[
     c24::exec,
     c35::exec,
     c36::exec,
+    c27::exec,
 ];
 
 /// Run one case (`op` + inputs) on the implementation: the first module that recognises the op answers.
@@ -78,6 +80,7 @@ fn generate(prop: &str, sink: &mut sink::Sink, rng: &mut rng::Rng, n: u64) -> bo
         "C24" => c24::generate(sink, rng, n),
         "C35" => c35::generate(sink, rng, n),
         "C36" => c36::generate(sink, rng, n),
+        "C27" => c27::generate(sink, rng, n),
         _ => return false,
     }
     true
